@@ -184,6 +184,21 @@ func Handle(c *core.Check, st core.State) {
 
 // ---- range fidelity for error-free parses ----
 
+// sigText joins the bytes of the significant tokens of a source slice (comments and newlines,
+// which are inter-token material, dropped).
+func sigText(s string) string {
+	toks, _ := hclsyntax.LexExpression([]byte(s), "x.hcl", hcl.InitialPos)
+	var sb strings.Builder
+	for _, t := range toks {
+		switch t.Type {
+		case hclsyntax.TokenComment, hclsyntax.TokenNewline, hclsyntax.TokenEOF:
+		default:
+			sb.Write(t.Bytes)
+		}
+	}
+	return sb.String()
+}
+
 func sliceIs(src []byte, r hcl.Range, want string) bool {
 	return r.Start.Byte >= 0 && r.End.Byte <= len(src) && r.Start.Byte <= r.End.Byte && string(src[r.Start.Byte:r.End.Byte]) == want
 }
@@ -323,7 +338,7 @@ func checkExprRanges(src []byte, e hclsyntax.Expression, bad func(string, string
 						bad("traversal-root", fmt.Sprintf("root step range slices %q for %q", s, st.Name))
 					}
 				case hcl.TraverseAttr:
-					if strings.Join(strings.Fields(s), "") != "."+st.Name {
+					if sigText(s) != "."+st.Name {
 						bad("traversal-attr", fmt.Sprintf("attribute step range slices %q for .%s", s, st.Name))
 					}
 				case hcl.TraverseIndex:
